@@ -261,6 +261,28 @@ impl RealState {
                     Err(e) => (format!("err {e:?}"), None),
                 }
             }
+            ["real.ladder", depth] => {
+                // a caterpillar of `depth` levels built through add_child (every branch of length 1): level i holds a leaf
+                // "L<i>" and the next internal node, the leaf first on even levels; the last internal node carries two leaves.
+                // Deep trees are legal inputs of every query; only the oracles use this (the model is not sent the arena).
+                let Ok(depth) = depth.parse::<usize>() else { return bad };
+                let mut t = Tree::new();
+                let mut cur = t.add(Node::new());
+                for i in 0..depth {
+                    if i % 2 == 0 {
+                        t.add_child(Node::new_named(&format!("L{i}")), cur, Some(1.0)).unwrap();
+                        cur = t.add_child(Node::new(), cur, Some(1.0)).unwrap();
+                    } else {
+                        let nxt = t.add_child(Node::new(), cur, Some(1.0)).unwrap();
+                        t.add_child(Node::new_named(&format!("L{i}")), cur, Some(1.0)).unwrap();
+                        cur = nxt;
+                    }
+                }
+                t.add_child(Node::new_named("Lx"), cur, Some(1.0)).unwrap();
+                t.add_child(Node::new_named("Ly"), cur, Some(1.0)).unwrap();
+                self.tree = t;
+                ("ok".into(), Some("nop".into()))
+            }
             ["real.warm"] => {
                 // every query that leaves something behind in the tree object (per-node distance caches, leaf index,
                 // partition maps): state carried into later calls must never change their answers
